@@ -151,3 +151,55 @@ Proof.
   - apply (G dihedrals o_dih); try reflexivity; try assumption; intros acc o f m; apply (X acc o f m).
   - apply (G impropers o_imp); try reflexivity; try assumption; intros acc o f m; apply (X acc o f m).
 Qed.
+(* membership in the per-image listing: a tuple of the replicated structure is exactly an original tuple moved into one image *)
+Lemma in_images n M tups t :
+  In t (flat_map (fun i => shift_tups (i * n) tups) (seq 0 M)) <-> exists i t0, i < M /\ In t0 tups /\ t = map (Nat.add (i * n)) t0.
+Proof.
+  rewrite in_flat_map. split.
+  - intros [i [Hi Ht]]. apply in_seq in Hi. unfold shift_tups in Ht. apply in_map_iff in Ht. destruct Ht as [t0 [E H0]].
+    exists i, t0. repeat split; [lia|exact H0|symmetry; exact E].
+  - intros [i [t0 [Hi [H0 E]]]]. exists i. split; [apply in_seq; lia|]. unfold shift_tups. apply in_map_iff. exists t0. split; [symmetry; exact E|exact H0].
+Qed.
+
+Lemma images_length n M tups : length (flat_map (fun i => shift_tups (i * n) tups) (seq 0 M)) = M * length tups.
+Proof.
+  generalize 0 as s. induction M as [|M IH]; intros s; cbn [seq flat_map]; [reflexivity|].
+  rewrite app_length, IH. unfold shift_tups. rewrite map_length. cbn. reflexivity.
+Qed.
+
+(* an image tuple lies wholly inside image i: every index is i*n + (an index below n), so quotient and remainder by n recover the image and the original tuple *)
+Lemma shifted_within n i t0 : Forall (fun v => v < n) t0 ->
+  Forall (fun v => v / n = i) (map (Nat.add (i * n)) t0) /\ map (fun v => v mod n) (map (Nat.add (i * n)) t0) = t0.
+Proof.
+  intros H. induction H as [|v t0 Hv H IH]; [split; [constructor|reflexivity]|].
+  destruct IH as [IH1 IH2]. assert (Hn : n <> 0) by lia. cbn [map]. split.
+  - constructor; [|exact IH1]. rewrite Nat.add_comm, Nat.div_add by exact Hn. rewrite Nat.div_small by exact Hv. reflexivity.
+  - f_equal; [|exact IH2]. rewrite Nat.add_comm, Nat.mod_add by exact Hn. apply Nat.mod_small. exact Hv.
+Qed.
+
+Definition per_image (n M : nat) (k kR : kind) : Prop :=
+  length (k_tup kR) = M * length (k_tup k) /\
+  (forall t, In t (k_tup kR) <-> exists i t0, i < M /\ In t0 (k_tup k) /\ t = map (Nat.add (i * n)) t0) /\
+  (forall t, In t (k_tup kR) -> exists i, i < M /\ Forall (fun v => v / n = i) t /\ In (map (fun v => v mod n) t) (k_tup k)).
+
+Lemma per_image_of n M k kR : tuples_in_range n k ->
+  k_tup kR = flat_map (fun i => shift_tups (i * n) (k_tup k)) (seq 0 M) -> per_image n M k kR.
+Proof.
+  intros Hr E. unfold per_image. rewrite E. split; [apply images_length|]. split; [intros t; apply in_images|].
+  intros t Ht. apply in_images in Ht. destruct Ht as [i [t0 [Hi [H0 ->]]]].
+  unfold tuples_in_range in Hr. rewrite Forall_forall in Hr. destruct (shifted_within n i t0 (Hr t0 H0)) as [Q Rm].
+  exists i. split; [exact Hi|]. split; [exact Q|]. rewrite Rm. exact H0.
+Qed.
+
+Theorem replicate_terms_within_images a c r R : a_cell a = Some c -> WF a ->
+  nonempty_tuples (bonds a) -> nonempty_tuples (angles a) -> nonempty_tuples (dihedrals a) -> nonempty_tuples (impropers a) ->
+  replicate a r = Some R ->
+  let M := length (all_mults r) in let n := natoms a in
+  per_image n M (bonds a) (bonds R) /\ per_image n M (angles a) (angles R) /\
+  per_image n M (dihedrals a) (dihedrals R) /\ per_image n M (impropers a) (impropers R).
+Proof.
+  intros Hc Hwf Nb Na Nd Ni H. pose proof (replicate_terms a c r R Hc Hwf Nb Na Nd Ni H) as T. cbv zeta in T |- *.
+  destruct T as [[Tb _] [[Ta _] [[Td _] [Ti _]]]].
+  destruct Hwf as [Hs [[Kb Rb] [[Ka Ra] [[Kd Rd] [Ki Ri]]]]].
+  split; [apply per_image_of; assumption|]. split; [apply per_image_of; assumption|]. split; apply per_image_of; assumption.
+Qed.
